@@ -101,6 +101,26 @@ class ProfEnv:
                     return "target for %s does not build: %s" % (goarch, (r.stdout + r.stderr)[-1500:])
                 with open(out, "rb") as f:
                     self.targets[(an, variant)] = (out, hashlib.sha256(f.read()).hexdigest())
+        # the same two builds linked dynamically (cgo), host architecture only: what `go build` gives for programs that use
+        # cgo; skipped if no C compiler is there
+        for variant in ("v1", "v2"):
+            d = os.path.join(self.root, "target-" + variant + "d")
+            os.makedirs(d, exist_ok=True)
+            with open(os.path.join(d, "main.go"), "w") as f:
+                f.write(TARGET_MAIN % (variant + "-dynamic"))
+            with open(os.path.join(d, "cgo.go"), "w") as f:
+                f.write("package main\n\n// #include <unistd.h>\nimport \"C\"\n\nfunc init() { _ = C.getpid() }\n")
+            with open(os.path.join(d, "go.mod"), "w") as f:
+                f.write("module target\n\ngo 1.18\n")
+            out = os.path.join(self.root, "t-dyn-%s" % variant)
+            try:
+                r = subprocess.run(["go", "build", "-o", out, "."], cwd=d, env=dict(GOENV, CGO_ENABLED="1", GOOS="linux"), capture_output=True, text=True, timeout=600)
+            except (OSError, subprocess.TimeoutExpired):
+                break
+            if r.returncode != 0:
+                break
+            with open(out, "rb") as f:
+                self.targets[("X86_64", variant + "d")] = (out, hashlib.sha256(f.read()).hexdigest())
         self.fake = os.path.join(self.root, "fake")
         os.makedirs(self.fake, exist_ok=True)
         with open(os.path.join(self.fake, "go"), "w") as f:
@@ -447,8 +467,12 @@ def c17_run_history(env, hist, an, L):
     d = env.new_case_dir()
     base = "target" if not hist.get("namelen") else ("n" * hist["namelen"])
     no_temp = len(base) + 11 + 5 + 1 > 255        # no temporary name fits: the run fails before it writes anything
-    binpath, h1 = env.place(d, an, "v1", base=base)
-    _, h2 = env.targets[(an, "v2")]
+    dyn = bool(hist.get("dynamic")) and (an, "v1d") in env.targets and (an, "v2d") in env.targets
+
+    def V(v):
+        return v + "d" if dyn else v
+    binpath, h1 = env.place(d, an, V("v1"), base=base)
+    _, h2 = env.targets[(an, V("v2"))]
     small = bool(hist.get("small"))
     listing_path, listing, l1name = (L["p3"], L["text3"], "l3") if small else (L["p1"], L["text"], "l1")
     listing2_path, listing2 = L["p2"], L["text2"]
@@ -494,7 +518,7 @@ def c17_run_history(env, hist, an, L):
     for i, st in enumerate(steps):
         variant = st.get("variant", "v1")
         if variant != cur_variant:
-            env.place(d, an, variant, base=base)
+            env.place(d, an, V(variant), base=base)
             cur_variant = variant
         hsh, lp, lb, lname = (h1, listing_path, lbytes, l1name) if variant == "v1" else (h2, listing2_path, l2bytes, "l2")
         kind = st["kind"]
@@ -607,6 +631,11 @@ def _c17_body(ctx, env, rng, replay):
             hs = c17_histories(rng, ctx.tier, len(listings[an]["text"]), len(listings[an]["text3"]))
             if an == "ARM" and ctx.tier == "quick":
                 hs = rng.sample(hs, 12)
+            if an == "X86_64":
+                # every third history on dynamically linked (cgo) builds of the same two programs
+                for k, hh in enumerate(hs):
+                    if k % 3 == 1:
+                        hh["dynamic"] = True
             plan += [(an, hh) for hh in hs]
     with concurrent.futures.ThreadPoolExecutor(max_workers=8) as ex:
         futs = [ex.submit(c17_run_history, env, hh, an, listings[an]) for (an, hh) in plan]
